@@ -136,19 +136,19 @@ def _run_loop(ctx, transient):
     f = S.get_function(TS + ":run_loop")
     loops = [n for n in f.node.body if isinstance(n, ast.For)]
     ok = len(loops) == 1 and ast.unparse(loops[0].iter) == "enumerate(ts_variables['time_steps'])"
-    ctx.decided("%s/structure/iterates-time_steps" % tag, "ensures", ok,
+    ctx.structural("%s/structure/iterates-time_steps" % tag, "ensures", ok,
                 witness=ast.unparse(loops[0].iter) if loops else "no loop")
     if loops:
         body = loops[0].body
         calls_in_body = [st for st in body if isinstance(st, ast.Expr) and isinstance(st.value, ast.Call)
                          and ast.unparse(st.value.func) == "run_time_step"]
-        ctx.decided("%s/structure/unconditional-single-call" % tag, "ensures", len(calls_in_body) == 1,
+        ctx.structural("%s/structure/unconditional-single-call" % tag, "ensures", len(calls_in_body) == 1,
                     witness="%d top-level run_time_step calls in the loop body" % len(calls_in_body))
         nested = [n for st in body for n in ast.walk(st) if isinstance(n, ast.Call) and
                   ast.unparse(n.func) == "run_time_step"]
-        ctx.decided("%s/structure/no-other-call" % tag, "ensures", len(nested) == 1, witness=str(len(nested)))
+        ctx.structural("%s/structure/no-other-call" % tag, "ensures", len(nested) == 1, witness=str(len(nested)))
         brk = [n for st in body for n in ast.walk(st) if isinstance(n, (ast.Break, ast.Continue, ast.Return))]
-        ctx.decided("%s/structure/no-early-exit" % tag, "ensures", not brk, witness=str(len(brk)))
+        ctx.structural("%s/structure/no-early-exit" % tag, "ensures", not brk, witness=str(len(brk)))
 
 
 @unit("C13", "run_loop", functions=[TS + ":run_loop"], engine="E1")
